@@ -258,6 +258,24 @@ def blackbox_part(ck, quick):
                     ck.violation("C18:blackbox:exit-status:error-in-an-early-file-lost", dict(position_in_scan_order=pos, threads=p_, single_file_exit=rc_f, directory_exit=rc_d, directory_stderr=err_d[-300:], single_file_stderr=err_f[-300:]))
     else:
         ck.violation("C18:harness:scan-order-probe-failed", dict(output=order_out[-500:]))
+    # a rule set wider than one 64-bit word of the scanner's per-rule bitmaps: every worker reuses its scanner for all the files it takes from the queue
+    wd = os.path.join(WORK, "widedir"); os.makedirs(wd)
+    for i in range(12):
+        open(os.path.join(wd, "w%02d" % i), "wb").write(b"plain " + (b"tok%02d " % (60 + i) if i % 3 == 0 else b"") + (b"tok03" if i == 5 else b""))
+    r4 = os.path.join(WORK, "wide.yar")
+    open(r4, "w").write("\n".join('rule r%02d { strings: $s = "tok%02d" condition: $s }' % (k, k) for k in range(72)))
+    wfiles = sorted(os.path.join(wd, f) for f in os.listdir(wd))
+    for opts in ([], ["-c"], ["-n", "-i", "r66"]):
+        per = collections.Counter()
+        for fp in wfiles:
+            rc, out, _ = run([bins["yara"]] + opts + [r4, fp]); n += 1
+            if "-c" in opts: out = "\n".join("%s: %s" % (fp, l) for l in out.split("\n") if l)
+            per.update(l for l in out.split("\n") if l)
+        for p_ in (1, 2, 4):
+            rc, out, _ = run([bins["yara"], "-p", str(p_)] + opts + [r4, wd]); n += 1
+            got = collections.Counter(l for l in out.split("\n") if l)
+            if got != per:
+                ck.violation("C18:blackbox:wide-rule-set:directory-vs-per-file", dict(options=opts, threads=p_, only_directory=sorted((got - per).elements())[:6], only_per_file=sorted((per - got).elements())[:6]))
     # -l N : the limit counter is process-global by design ("abort scanning after matching a number of rules"), so the per-file equivalence cannot hold for a directory
     lim = os.path.join(WORK, "limdir"); os.makedirs(lim)
     for i in range(3): open(os.path.join(lim, "m%d" % i), "wb").write(b"--abcd--")
